@@ -26,7 +26,7 @@
 
     What is NOT proved anywhere: that Eigen's solver returns (d, U) with small residuals (certified per run), and
     that small residuals imply eigenvalues close to the true spectrum (Weyl / Bauer-Fike; trusted mathematics). *)
-From mathcomp Require Import all_ssreflect all_algebra.
+From mathcomp Require Import all_ssreflect all_algebra fingroup perm.
 Set Implicit Arguments.
 Unset Strict Implicit.
 Unset Printing Implicit Defensive.
@@ -216,25 +216,52 @@ End CAR.
 
 End Adjoint.
 
-(** * The hypotheses are satisfiable by non-trivial values (rationals, conj = identity):
-      H = [[0,1],[1,0]],  U = [[1,1],[1,-1]] (invertible),  d = (1,-1) *)
+(** * The hypotheses of the theorems are satisfiable by non-trivial values (any field, any involution) *)
 Section Examples.
-Local Notation Q := rat.
-Definition exH : 'M[Q]_2 := \matrix_(i, j) (if i == j then 0 else 1).
-Definition exU : 'M[Q]_2 := \matrix_(i, j) (if (i == 1) && (j == 1) then -1 else 1).
-Definition exd : 'rV[Q]_2 := \row_j (if j == 0 then 1 else -1).
+Variable F : fieldType.
+Variable conj : {rmorphism F -> F}.
+Hypothesis conjK : involutive conj.
 
-Example ex_eigen : exH *m exU = exU *m diag_mx exd.
+(** 1. diagonal in a permuted basis *)
+Example ex_similar n (s : 'S_n) (d : 'rV[F]_n) :
+  let U := perm_mx s in let H := U *m diag_mx d *m invmx U in
+  U \in unitmx /\ H *m U = U *m diag_mx d.
+Proof. by split; [exact: unitmx_perm | rewrite mulmxKV ?unitmx_perm]. Qed.
+
+Example ex_perm_unitary n (s : 'S_n) : unitary conj (perm_mx s : 'M[F]_n).
 Proof.
-apply/matrixP => i j; rewrite !mxE !big_ord_recl big_ord0 !mxE /=.
-by case: i => [[|[|i]] Hi] //; case: j => [[|[|j]] Hj] //=; rewrite ?mulr1n ?mulr0n; vm_compute.
+rewrite /unitary /adj map_perm_mx tr_perm_mx -perm_mxM.
+by rewrite ?mulgV ?mulVg perm_mx1.
 Qed.
 
-Example ex_unit : exU \in unitmx.
+(** 2. an operator with one non-zero entry per column *)
+Example ex_one_per_column nt nf (f : 'I_nf -> 'I_nt) :
+  let O : 'M[F]_(nt, nf) := \matrix_(l, k) (l == f k)%:R in
+  forall k l, (Some (f k) : option 'I_nt) != Some l -> O l k = 0.
+Proof. by move=> O k l ne; rewrite mxE; case: (l =P f k) ne => [->|//]; rewrite eqxx. Qed.
+
+(** 3. every state its own block *)
+Example ex_blocks n (d : 'rV[F]_n) :
+  let H := diag_mx d in let U : 'M[F]_n := 1%:M in
+  [/\ forall s t : 'I_n, s != t -> H s t = 0,
+      forall s g : 'I_n, s != g -> U s g = 0,
+      forall s g : 'I_n, s = g -> \sum_(t | t == g) H s t * U t g = U s g * d 0 g &
+      forall g g' : 'I_n, g = g' -> \sum_(s | s == g) conj (U s g) * U s g' = (g == g')%:R].
 Proof.
-by rewrite unitmxE (expand_det_row _ ord0) !big_ord_recl big_ord0 /cofactor !det_mx11 !mxE /=; vm_compute.
+move=> H U; split.
+- by move=> s t ne; rewrite mxE (negbTE ne) mulr0n.
+- by move=> s g ne; rewrite mxE (negbTE ne).
+- by move=> s g ->; rewrite big_pred1_eq !mxE eqxx mulr1n mulr1 mul1r.
+- by move=> g g' <-; rewrite big_pred1_eq !mxE eqxx rmorph1 mulr1.
 Qed.
 
-Example ex_spectrum : char_poly exH = \prod_(i < 2) ('X - (exd 0 i)%:P).
-Proof. exact: (similar_same_charpoly ex_unit ex_eigen). Qed.
+(** 4. one fermionic mode: c = |0><1| *)
+Definition exC : 'M[F]_2 := \matrix_(i, j) ((i == 0) && (j == 1))%:R.
+Definition exCX : 'M[F]_2 := \matrix_(i, j) ((i == 1) && (j == 0))%:R.
+Example ex_car : exC *m exCX + exCX *m exC = 1%:M /\ exC *m exC + exC *m exC = 0.
+Proof.
+split; apply/matrixP => i j; rewrite !mxE !big_ord_recl !big_ord0 !mxE /=;
+  case: i => [[|[|i]] Hi] //; case: j => [[|[|j]] Hj] //=;
+  by rewrite ?(mulr0, mul0r, mulr1, addr0, add0r, mulr1n, mulr0n).
+Qed.
 End Examples.
